@@ -333,6 +333,11 @@ fn run_alpha(ops: &[AOp], probes: &[Val]) -> (Vec<Disc>, Obs) {
             }
             AOp::AutoTune => real.auto_tune(),
         }
+        // a long history is probed in full after every 16th op, after every op that changes the
+        // set of indexes, and at its end (each full probe is linear in the facts held)
+        if ops.len() > 24 && !(oi % 16 == 15 || oi + 1 == ops.len() || !matches!(op, AOp::Insert(_) | AOp::Tracked(..))) {
+            continue;
+        }
         for field in ALPHA_FIELDS {
             let indexed = real.indexed_fields().iter().any(|x| x.as_str() == field);
             for p in probes {
@@ -412,6 +417,9 @@ fn run_beta(ops: &[BOp], probes: &[String]) -> Option<(Vec<Disc>, Obs)> {
                     obs.effective_removes += 1;
                 }
             }
+        }
+        if ops.len() > 24 && !(oi % 8 == 7 || oi + 1 == ops.len() || matches!(op, BOp::Remove(_))) {
+            continue;
         }
         let mut keys: Vec<String> = probes.to_vec();
         for m in live.values() {
@@ -774,6 +782,9 @@ fn run_concl(ops: &[COp], goals: &[GoalSpec]) -> Option<(Vec<Disc>, Obs)> {
                 }
             }
         }
+        if ops.len() > 24 && !(oi % 8 == 7 || oi + 1 == ops.len() || matches!(op, COp::Remove(_))) {
+            continue;
+        }
         for g in goals {
             let text = g.text();
             let got = ix.find_candidates(&text);
@@ -1124,7 +1135,8 @@ fn gen_factmap(rng: &mut Rng, dom: &[Val], fields: &[&str]) -> FactMap {
 fn gen_alpha(rng: &mut Rng) -> Case {
     // hostile values (NaN, -0.0) only in a minority of the histories
     let dom = if rng.chance(2, 5) { domain() } else { clean_domain() };
-    let n = 1 + rng.below(10);
+    // one history in 20 is long (40..=300 operations: hundreds of indexed facts)
+    let n = if rng.chance(1, 20) { 40 + rng.below(261) } else { 1 + rng.below(10) };
     let mut ops = Vec::new();
     for _ in 0..n {
         let field = rng.pick(&["a", "a", "b", "zz"]).to_string();
@@ -1142,7 +1154,7 @@ fn gen_alpha(rng: &mut Rng) -> Case {
 
 fn gen_beta(rng: &mut Rng) -> Case {
     let dom = domain();
-    let n = 1 + rng.below(10);
+    let n = if rng.chance(1, 20) { 40 + rng.below(261) } else { 1 + rng.below(10) };
     let mut ops = Vec::new();
     let mut live: BTreeSet<usize> = BTreeSet::new();
     let mut next = 0usize;
@@ -1349,11 +1361,14 @@ fn gen_memo(rng: &mut Rng) -> Case {
 }
 
 fn gen_concl(rng: &mut Rng) -> Case {
-    let n = 1 + rng.below(10);
+    // one history in 20 is long: 40..=300 operations over 120 rule names
+    let long = rng.chance(1, 20);
+    let n = if long { 40 + rng.below(261) } else { 1 + rng.below(10) };
+    let names = if long { 120 } else { 5 };
     let mut ops = Vec::new();
     let mut present: BTreeSet<String> = BTreeSet::new();
     for _ in 0..n {
-        let name = format!("R{}", rng.below(5));
+        let name = format!("R{}", rng.below(names));
         if (!present.contains(&name) || rng.chance(1, 4)) && (present.is_empty() || rng.chance(3, 5)) {
             let na = 1 + rng.below(3);
             let acts = (0..na)
@@ -1387,7 +1402,7 @@ impl Check for C16 {
         "C16"
     }
     fn rule(&self) -> String {
-        "Four differential monitors, histories of 1..=10 random ops each, value domain = integers, floats incl. 0.0/-0.0/NaN/+-inf, numeric-looking strings, booleans, (nested) arrays, null (37 values). alpha: ops insert/create_index/drop_index/filter_tracked/auto_tune on the real AlphaMemoryIndex, inserts mirrored into a never-indexed shadow; after EVERY op filter(field, v) is compared as a multiset for 3 fields x every domain value (3/5 of the histories use the domain without NaN/-0.0). beta: ops add/remove (live, removed-before and never-added positions) on BetaMemoryIndex; after every op lookup(key) for the printed key of every domain value and every live fact is compared with the scan of the harness's live list. memo: one MemoizedEvaluator, 2..=10 evaluate calls over 1..=3 generated nodes (in half of the histories plus a near-duplicate of one of them: exactly one parameter of one leaf differs) (alpha nodes with 11 operators x 16 literals, And/Or/Not/Exists/Forall to depth 2, multifield nodes) x 2..=4 fact sets; in half of the histories the fact sets print alike (as_str) but differ in type; every call is compared with evaluate_typed. conclusion: ops add_rule (1..=3 actions Set/Log/MethodCall/Retract, 1/6 disabled) / remove_rule (present or absent name) on ConclusionIndex; after every op find_candidates(goal) must contain every enabled present rule with a Set on the goal's field, for 10 fields (three with non-ASCII letters in their names) x 13 goal spellings (bare field, == != > >= < <= contains matches, tight/blank spacing); 1/3 of the histories add goals whose string literal holds operator text and negated goals (NOT / !). EXHAUSTIVE sub-spaces: all (stored value, probe value) pairs of the domain for alpha (index created before and after the insert) and beta; all ordered pairs of print-alike values x 11 operators x 16 literals for memo. Non-trivial: alpha = some filter answered through an index was non-empty and some was empty; beta / conclusion = a non-empty expected answer after an effective remove; memo = at least one cache hit and both verdicts observed. Distinct by the whole history.".into()
+        "Four differential monitors, histories of 1..=10 random ops each (alpha, beta and conclusion: one history in 20 has 40..=300 ops, hundreds of indexed facts / up to 120 rule names), value domain = integers, floats incl. 0.0/-0.0/NaN/+-inf, numeric-looking strings, booleans, (nested) arrays, null (37 values). alpha: ops insert/create_index/drop_index/filter_tracked/auto_tune on the real AlphaMemoryIndex, inserts mirrored into a never-indexed shadow; after EVERY op filter(field, v) is compared as a multiset for 3 fields x every domain value (3/5 of the histories use the domain without NaN/-0.0). beta: ops add/remove (live, removed-before and never-added positions) on BetaMemoryIndex; after every op lookup(key) for the printed key of every domain value and every live fact is compared with the scan of the harness's live list. memo: one MemoizedEvaluator, 2..=10 evaluate calls over 1..=3 generated nodes (in half of the histories plus a near-duplicate of one of them: exactly one parameter of one leaf differs) (alpha nodes with 11 operators x 16 literals, And/Or/Not/Exists/Forall to depth 2, multifield nodes) x 2..=4 fact sets; in half of the histories the fact sets print alike (as_str) but differ in type; every call is compared with evaluate_typed. conclusion: ops add_rule (1..=3 actions Set/Log/MethodCall/Retract, 1/6 disabled) / remove_rule (present or absent name) on ConclusionIndex; after every op find_candidates(goal) must contain every enabled present rule with a Set on the goal's field, for 10 fields (three with non-ASCII letters in their names) x 13 goal spellings (bare field, == != > >= < <= contains matches, tight/blank spacing); 1/3 of the histories add goals whose string literal holds operator text and negated goals (NOT / !). EXHAUSTIVE sub-spaces: all (stored value, probe value) pairs of the domain for alpha (index created before and after the insert) and beta; all ordered pairs of print-alike values x 11 operators x 16 literals for memo. Non-trivial: alpha = some filter answered through an index was non-empty and some was empty; beta / conclusion = a non-empty expected answer after an effective remove; memo = at least one cache hit and both verdicts observed. Distinct by the whole history.".into()
     }
     fn assumptions(&self) -> Vec<String> {
         vec![
